@@ -52,7 +52,7 @@ const READER_HANDLER: &str = r#"{
 
 pub fn run_case(seed: u64, index: usize) -> CaseResult {
     let mut res = CaseResult::default();
-    let mode = ["matrix", "race", "kill"][index % 3];
+    let mode = ["matrix", "race", "kill", "first"][index % 4];
     res.seen("modes", mode);
     let mut srv = match Srv::start("c10") {
         Ok(s) => s,
@@ -64,6 +64,7 @@ pub fn run_case(seed: u64, index: usize) -> CaseResult {
     let r = match mode {
         "matrix" => matrix(&mut srv, seed, &mut res),
         "race" => race(&mut srv, seed, &mut res),
+        "first" => first_writer(&mut srv, seed, index / 4, &mut res),
         _ => kill(&mut srv, seed, &mut res),
     };
     if let Err(e) = r {
@@ -73,6 +74,115 @@ pub fn run_case(seed: u64, index: usize) -> CaseResult {
     res.hash = fnv(&format!("{}{}", mode, seed));
     srv.finish();
     res
+}
+
+/// Every frame that carries a hash has its content present, and the content hashes to it.
+fn every_hash_has_content(srv: &mut Srv, res: &mut CaseResult, what: &str) -> R<()> {
+    let frames: Vec<Frame> = srv.era_log().iter().filter(|f| f.hash.is_some() && !is_synth(f)).cloned().collect();
+    for f in frames {
+        let h = f.hash.clone().unwrap();
+        res.count("frames_with_hash_checked_for_content", 1);
+        match srv.cas(&h)? {
+            None => res.find(&["C10"], format!("{}/frame-visible-but-its-content-is-not-in-cas", what), json!({"frame": f})),
+            Some(b) => {
+                if sha256_integrity(&b) != h.to_string() {
+                    res.find(&["C10"], format!("{}/content-does-not-hash-to-the-frames-hash", what), json!({"frame": f, "len": b.len()}));
+                }
+            }
+        }
+    }
+    Ok(())
+}
+
+/// A fresh store in which a script entry point is the first writer of some content - in particular of the
+/// empty byte string, which the other cases store early through the Store API (and would mask).
+fn first_writer(srv: &mut Srv, seed: u64, turn: usize, res: &mut CaseResult) -> R<()> {
+    let mut rng = Rng::new(seed);
+    let uniq = format!("only-the-script-writes-this-{}", seed);
+    let who = ["generator", "command-append", "handler-append", "command-output"][turn % 4];
+    res.seen("first_writers", format!("{}/empty+unique", who));
+    let mark = match who {
+        "generator" => {
+            let expr = format!("[\"first\" \"\" \"{}\" \"\"] | each {{|x| $x}}", uniq);
+            let sp = srv.must_append("fg.spawn", ZERO_CONTEXT, Some(expr.as_bytes()), None, None)?;
+            srv.wait(Duration::from_secs(30), |log| log.iter().any(|f| f.topic == "fg.stop"))?;
+            let sid = sp.id.to_string();
+            let recvs: Vec<Frame> = srv.era_log().iter().filter(|f| f.topic == "fg.recv" && meta_str(f, "source_id") == Some(&sid)).cloned().collect();
+            // first lifecycle only
+            let want = ["first", "", uniq.as_str(), ""];
+            if recvs.len() < want.len() {
+                res.inconclusive = Some(format!("generator produced {} of {} outputs within 30 s", recvs.len(), want.len()));
+                return Ok(());
+            }
+            for (i, w) in want.iter().enumerate() {
+                res.count("entry_point_writes_checked", 1);
+                if recvs[i].hash.as_ref().map(|h| h.to_string()) != Some(sha256_integrity(w.as_bytes())) {
+                    res.find(&["C10", "C18"], "first-writer/hash-is-not-sha256-of-the-documented-rendering/generator_output", json!({"position": i, "frame": recvs[i]}));
+                }
+            }
+            sp
+        }
+        "command-append" | "command-output" => {
+            let script = if who == "command-append" {
+                format!("{{run: {{|frame| \"\" | .append fw.empty; \"{}\" | .append fw.uniq; (\"\" | into binary) | .append fw.emptybin; [] | each {{|x| $x}} }}}}", uniq)
+            } else {
+                format!("{{run: {{|frame| [\"\" \"{}\"] | each {{|x| $x}} }}}}", uniq)
+            };
+            srv.must_append("fw.define", ZERO_CONTEXT, Some(script.as_bytes()), None, None)?;
+            let c = srv.must_append("fw.call", ZERO_CONTEXT, None, None, None)?;
+            let cid = c.id.to_string();
+            let done = srv.wait(Duration::from_secs(30), |log| log.iter().any(|f| (f.topic == "fw.complete" || f.topic == "fw.error") && meta_str(f, "frame_id") == Some(&cid)))?;
+            if !done || srv.era_log().iter().any(|f| f.topic == "fw.error") {
+                res.inconclusive = Some("the writer command did not complete".into());
+                return Ok(());
+            }
+            if who == "command-append" {
+                for (topic, w) in [("fw.empty", ""), ("fw.uniq", uniq.as_str()), ("fw.emptybin", "")] {
+                    res.count("entry_point_writes_checked", 1);
+                    match srv.era_log().iter().find(|f| f.topic == topic).cloned() {
+                        None => res.find(&["C10", "C19"], format!("first-writer/frame-missing/{}", topic), json!({})),
+                        Some(f) => {
+                            if f.hash.as_ref().map(|h| h.to_string()) != Some(sha256_integrity(w.as_bytes())) {
+                                res.find(&["C10"], "first-writer/hash-is-not-sha256-of-the-documented-rendering/.append", json!({"frame": f}));
+                            }
+                        }
+                    }
+                }
+            }
+            c
+        }
+        _ => {
+            let script = format!("{{run: {{|frame| if $frame.topic != \"fh.in\" {{ return }}; \"\" | .append fh.empty; \"{}\" }}}}", uniq);
+            srv.must_append("fh.register", ZERO_CONTEXT, Some(script.as_bytes()), None, None)?;
+            srv.wait(Duration::from_secs(30), |log| log.iter().any(|f| f.topic == "fh.registered"))?;
+            let t = srv.must_append("fh.in", ZERO_CONTEXT, None, None, None)?;
+            let tid = t.id.to_string();
+            let done = srv.wait(Duration::from_secs(30), |log| log.iter().any(|f| (f.topic == "fh.out" || f.topic == "fh.unregistered") && meta_str(f, "frame_id").map(|x| x == tid).unwrap_or(f.topic == "fh.unregistered")))?;
+            if !done || srv.era_log().iter().any(|f| f.topic == "fh.unregistered") {
+                res.inconclusive = Some("the writer handler did not answer".into());
+                return Ok(());
+            }
+            res.count("entry_point_writes_checked", 1);
+            match srv.era_log().iter().find(|f| f.topic == "fh.empty").cloned() {
+                None => res.find(&["C10", "C15"], "first-writer/frame-missing/fh.empty", json!({})),
+                Some(f) => {
+                    if f.hash.as_ref().map(|h| h.to_string()) != Some(sha256_integrity(b"")) {
+                        res.find(&["C10"], "first-writer/hash-is-not-sha256-of-the-documented-rendering/handler_.append", json!({"frame": f}));
+                    }
+                }
+            }
+            t
+        }
+    };
+    let _ = mark;
+    srv.settle(Duration::from_millis(150), Duration::from_secs(5))?;
+    every_hash_has_content(srv, res, "first-writer")?;
+    // and the same after a restart
+    srv.restart(rng.chance(500))?;
+    srv.settle(Duration::from_millis(300), Duration::from_secs(10))?;
+    every_hash_has_content(srv, res, "first-writer-after-restart")?;
+    res.nontrivial = res.counters.get("frames_with_hash_checked_for_content").copied().unwrap_or(0) > 0;
+    Ok(())
 }
 
 fn byte_strings(rng: &mut Rng) -> Vec<(String, Vec<u8>)> {
@@ -100,15 +210,34 @@ fn matrix(srv: &mut Srv, seed: u64, res: &mut CaseResult) -> R<()> {
     for (label, bytes) in byte_strings(&mut rng) {
         let want = sha256_integrity(&bytes);
         let mut hashes: Vec<(String, Option<String>)> = vec![];
-        // Store API: cas_insert_sync, streaming writers (sync / async, several chunk sizes)
-        let v = srv.call(json!({"op": "cas_insert", "b64": b64(&bytes)}))?;
-        hashes.push(("cas_insert_sync".into(), v["hash"].as_str().map(|s| s.to_string())));
+        // Store API: cas_insert_sync, cas_insert (async), streaming writers (sync / async, several chunk sizes), in
+        // a seeded order: whichever comes first is the first writer of this content in this store, and what it
+        // reported must be readable right away (a later writer would mask a write that stored nothing)
         let chunk = *rng.pick(&[1usize, 1000, 8192, 100_000]);
         let chunk = if bytes.len() > 50_000 && chunk == 1 { 4096 } else { chunk };
-        let v = srv.call(json!({"op": "cas_stream_insert", "b64": b64(&bytes), "chunk": chunk}))?;
-        hashes.push(("cas_writer_sync".into(), v["hash"].as_str().map(|s| s.to_string())));
-        let v = srv.call(json!({"op": "cas_stream_insert", "b64": b64(&bytes), "chunk": chunk, "async": true}))?;
-        hashes.push(("cas_writer".into(), v["hash"].as_str().map(|s| s.to_string())));
+        let mut writers = vec!["cas_insert_sync", "cas_insert", "cas_writer_sync", "cas_writer"];
+        for i in (1..writers.len()).rev() {
+            writers.swap(i, rng.below(i + 1));
+        }
+        for (wi, how) in writers.iter().enumerate() {
+            let v = match *how {
+                "cas_insert_sync" => srv.call(json!({"op": "cas_insert", "b64": b64(&bytes)}))?,
+                "cas_insert" => srv.call(json!({"op": "cas_insert", "b64": b64(&bytes), "async": true}))?,
+                "cas_writer_sync" => srv.call(json!({"op": "cas_stream_insert", "b64": b64(&bytes), "chunk": chunk}))?,
+                _ => srv.call(json!({"op": "cas_stream_insert", "b64": b64(&bytes), "chunk": chunk, "async": true}))?,
+            };
+            let h = v["hash"].as_str().map(|s| s.to_string());
+            if wi == 0 {
+                res.seen("first_writers", format!("{}/{}", how, if bytes.is_empty() { "empty" } else { "non-empty" }));
+                if let Some(h) = &h {
+                    let r = srv.call(json!({"op": "cas_read", "hash": h}))?;
+                    if r["b64"].as_str().map(crate::session::unb64) != Some(bytes.clone()) {
+                        res.find(&["C10"], format!("first-writer/content-not-readable-by-the-reported-hash/{}", how), json!({"label": label, "len": bytes.len(), "hash": h, "reply": r.get("err")}));
+                    }
+                }
+            }
+            hashes.push((how.to_string(), h));
+        }
         // HTTP: POST /cas (empty body is a client error by design), POST /{topic} single and chunked
         if !bytes.is_empty() {
             match http::once(&sock, &Req::new("POST", "/cas").body(&bytes), t) {
@@ -296,6 +425,7 @@ fn matrix(srv: &mut Srv, seed: u64, res: &mut CaseResult) -> R<()> {
             other => res.find(&["C10", "C18"], "hash-is-not-sha256-of-the-documented-rendering/generator_output", json!({"position": i, "text": t, "frame": other})),
         }
     }
+    every_hash_has_content(srv, res, "matrix")?;
     // the same hashes give the same bytes after a restart
     srv.restart(false)?;
     for (h, bytes) in &remembered {
